@@ -94,6 +94,14 @@ PROJECTS = [
      "check_contains": ["util"], "run_contains": ["not marked as"]},
     {"what": "a public fun that uses its file's private items", "files": {"util.gdn": _UTIL, "shapes.gdn": _SHAPES, "main.gdn": "import \"./shapes.gdn\" as shapes\nprintln(string_repr(shapes::area(2)))\n"}, "main": "main.gdn",
      "run_contains": ["20"], "check_not_contains": ["Error"]},
+    # names that are in scope in the imported file without being its definitions
+    {"what": "a function the imported file itself imported unqualified, reached through the alias",
+     "files": {"c.gdn": "public fun c_pub(): String { \"from c\" }\n", "b.gdn": "import \"./c.gdn\"\npublic fun b_pub(): String { c_pub() }\n",
+               "main.gdn": "import \"./b.gdn\" as b\nprintln(b::b_pub())\nprintln(\"sec\" ^ \"ond \" ^ b::c_pub())\n"}, "main": "main.gdn",
+     "check_contains": ["c_pub"], "run_contains": ["from c", "not marked as"], "run_not_contains": ["second from c"]},
+    {"what": "a prelude function reached through the alias",
+     "files": {"b.gdn": "public fun b_pub(): String { \"b\" }\n", "main.gdn": "import \"./b.gdn\" as b\nprintln(b::b_pub())\nb::println(\"thr\" ^ \"ough\")\n"}, "main": "main.gdn",
+     "check_contains": ["println"], "run_contains": ["not marked as"], "run_not_contains": ["through"]},
     # a public enum: its variants and constructors are definitions the file marks public
     {"what": "a variant of a public enum reached through an alias", "files": {"colors.gdn": _COLORS, "main.gdn": "import \"./colors.gdn\" as colors\nprintln(colors::show(colors::Red))\nprintln(colors::show(colors::Shade(3)))\n"}, "main": "main.gdn",
      "run_contains": ["red", "shade 3"], "check_not_contains": ["Error", "Red", "Shade"]},
